@@ -91,8 +91,14 @@ func (x *Exec) loopHeader(st *State, fr *Frame, b *ssa.BasicBlock, prev *ssa.Bas
 		in[i] = x.val(fr, b.Instrs[i].(*ssa.Phi).Edges[pi])
 	}
 	evalInvs := func(s *State, f *Frame, tag string, assume bool) {
+		x.specMode++
+		defer func() { x.specMode-- }()
 		env := x.frameEnv(f)
 		for k, cl := range invs {
+			if assume && hasExists(cl) {
+				s.assume(x.assumeClause(s, env, cl, func(n string, v Value) { f.env[n] = envEntry{v: v} }))
+				continue
+			}
 			if assume && len(cl.vars) > 0 {
 				// quantified invariant: an instantiable fact about the loop-head state
 				x.schemaCtr++
@@ -257,6 +263,7 @@ func (x *Exec) havocLoop(st *State, fr *Frame, b *ssa.BasicBlock, nphi int, writ
 	sort.Slice(cells, func(i, j int) bool { return cells[i].id < cells[j].id })
 	for _, c := range cells {
 		st.store[c] = x.havocLike(st, st.store[c], c.typ, "loop$"+c.name)
+		st.wlog = append(st.wlog, c.id)
 	}
 }
 
